@@ -8,6 +8,7 @@ from credit card and bank statements.
 import csv
 import os
 import re
+import sys
 from datetime import date
 from typing import Optional, List, Tuple, Dict, TYPE_CHECKING
 
@@ -37,6 +38,24 @@ def clear_engine_cache():
     global _cached_engine, _cached_engine_path
     _cached_engine = None
     _cached_engine_path = None
+    _reported_load_errors.clear()
+
+
+# (path, message) of .rules load errors already shown to the user
+_reported_load_errors = set()
+
+
+def _report_rules_load_error(rules_path, error):
+    """Tell the user (on stderr) that a .rules file could not be loaded.
+
+    The loaders below keep their historical behaviour of carrying on without the
+    rules, but the error - which names the offending line - must not be lost.
+    Each distinct error is shown once per process.
+    """
+    key = (str(rules_path), str(error))
+    if key not in _reported_load_errors:
+        _reported_load_errors.add(key)
+        print(f"Error loading rules from {rules_path}: {error}", file=sys.stderr)
 
 
 
@@ -185,8 +204,9 @@ def get_all_rules(rules_path=None, match_mode='first_match'):
                         list(rule.tags)
                     ))
                 return user_rules_with_source
-            except Exception:
-                pass  # Fall through to CSV handling if .rules parsing fails
+            except Exception as e:
+                # Report, then fall through to CSV handling if .rules parsing fails
+                _report_rules_load_error(rules_path, e)
 
         # CSV format (legacy)
         user_rules = load_merchant_rules(rules_path)
@@ -228,7 +248,8 @@ def get_tag_only_rules(rules_path, match_mode='first_match'):
         from pathlib import Path
         engine = load_merchants_file(Path(rules_path), match_mode=match_mode)
         return engine.tag_only_rules
-    except Exception:
+    except Exception as e:
+        _report_rules_load_error(rules_path, e)
         return []
 
 
@@ -296,7 +317,8 @@ def get_transforms(rules_path, match_mode='first_match'):
         from pathlib import Path
         engine = load_merchants_file(Path(rules_path), match_mode=match_mode)
         return engine.transforms
-    except Exception:
+    except Exception as e:
+        _report_rules_load_error(rules_path, e)
         return []
 
 
